@@ -59,7 +59,7 @@ DMAX = 2.5  # >= every network / FIN delay above
 # (request + answer) + release delivery; plus one poll period until the next grant
 CYCLE = POLL + max(HOLDS) + 4 * DMAX + 0.5
 
-DEFAULT_CFG = dict(prop='C13', faults=False, free_execs=3, random_execs=3, max_enum=150,
+DEFAULT_CFG = dict(prop='C13', faults=False, free_execs=3, random_execs=3, max_enum=90,
                    modes=('reset', 'fin'), max_clients=6, max_rounds=3, max_steps=6000, max_time=700.0,
                    stray=(1, 8), hold_io=(1, 4))
 
@@ -243,7 +243,10 @@ class LockWorld:
         self.probes = collections.Counter()
         self.faults = collections.Counter()
         self.kinds = collections.Counter()
-        self.ops = []
+        self.head = []  # scenario
+        self.passlog = []  # detail of the first fault-free execution
+        self.summaries = []  # one line per uneventful execution
+        self.vlog = []  # detail of the execution that violated
         self.xops = []
         self.stopped = False
         self.steps = 0
@@ -270,8 +273,17 @@ class LockWorld:
         self.stopped = True
 
     def op(self, text):
-        if len(self.ops) < 400:
-            self.ops.append(text)
+        if len(self.head) < 40:
+            self.head.append(text)
+
+    def assemble_ops(self):
+        """<= 400 lines: scenario, first fault-free execution, the last uneventful executions, the violating one"""
+        out = list(self.head) + self.passlog[:100]
+        if len(self.summaries) > 40:
+            out.append(f'... {len(self.summaries) - 40} uneventful executions not shown ...')
+        out += self.summaries[-40:]
+        out += self.vlog[-210:]
+        return out[:400]
 
     def xop(self, text):
         line = f'[{self.sim.steps}@{self.sim.now:.3f}] {text}'
@@ -512,19 +524,16 @@ class LockWorld:
         self.hash.update(sim.digest().encode())
         self.nexec += 1
         plan = self.plan
-        detail = plan['kind'] == 'free' and plan['index'] == 0
-        if len(self.violations) > self.xviol or detail:
-            self.op(f'--- execution {plan["label"]} ({how}, {sim.steps} steps, {sim.now:.2f} s) ---')
-            for l in self.xops[:(110 if detail and len(self.violations) == self.xviol else 260)]:
-                self.op('  ' + l)
+        head = f'--- execution {plan["label"]} ({how}, {sim.steps} steps, {sim.now:.2f} s) ---'
+        if len(self.violations) > self.xviol:
+            self.vlog = [head] + ['  ' + l for l in self.xops[-200:]]
+        elif plan['kind'] == 'free' and plan['index'] == 0:
+            self.passlog = [head] + ['  ' + l for l in self.xops]
         elif how in ('steps', 'time', 'stuck'):
-            self.op(f'--- execution {plan["label"]}: BUDGET {how}, {sim.steps} steps, {sim.now:.2f} s; last operations:')
-            for l in self.xops[-25:]:
-                self.op('  ' + l)
-            for l in list(sim.tail)[-12:]:
-                self.op('    event ' + l)
+            self.summaries.append(f'--- execution {plan["label"]}: BUDGET {how}, {sim.steps} steps, {sim.now:.2f} s; last operations:')
+            self.summaries += ['  ' + l for l in self.xops[-8:]]
         else:
-            self.op(f'--- execution {plan["label"]}: {how}, {sim.steps} steps, {sim.now:.2f} s, ok')
+            self.summaries.append(f'--- execution {plan["label"]}: {how}, {sim.steps} steps, {sim.now:.2f} s, ok')
 
     def execute(self, chooser, plan):
         self.begin(chooser, plan)
@@ -652,6 +661,41 @@ class LockWorld:
         except Exception:  # noqa
             raise core.HarnessError('lock world oracle: ' + traceback.format_exc()[-2000:])
 
+    # ------------------------------------------------------------------------------------------
+    # The oracles of C13, evaluated after EVERY simulator step (plus on_request_done, on_acquired,
+    # final_checks).  Server-side vocabulary, all observed:
+    #   H = connections whose Worker has __has_lock        L = dawgie.context.db_lock
+    #   T = connections that were sent Mutex.unlock, were not yet answered True to a release and
+    #       whose connectionLost has not been delivered ("told it holds the lock")
+    #   W = connections whose acquire request reached Worker.do, not yet told, connection up ("waiting")
+    # Rules and the clause of the statement they decide:
+    #   two_holders, two_told                 "at most one client holds the lock at any time"
+    #   told_without_holding (T subset of H), client_believes_without_holding (acquire() returned
+    #       on an intact connection that is not the owner)   "told it holds the lock only when it does"
+    #   dropped_connection_holds_lock         "a client whose connection drops releases the lock if it held
+    #       it [in the step that delivers connectionLost] and abandons its request if it was waiting
+    #       [never owns the lock afterwards]"
+    #   free_lock_not_granted                 "whenever the lock is free some waiting client is granted it at
+    #       its next poll": T empty and some w in W continuously for more than one poll period (3 s + 1e-6)
+    #   waiter_starved                        "no waiter starves once holders release or die": bound
+    #       (|W|+1) x CYCLE counted from the last new acquire seen by the server / last injected fault
+    #   lock_leaked_at_end                    every client released or died and every end of stream was
+    #       delivered, yet somebody owns the lock or the bit is set
+    #   lock_bit_mismatch, release_ignored, release_by_non_holder_changed_lock: state invariants asked for
+    #       by the brief (db_lock <=> exactly one owner; a release by the owner frees, by anybody else changes
+    #       nothing).  They are not sentences of the statement; each breach has a continuation that breaks
+    #       one (bit clear with an owner -> the next acquire makes two holders; bit set without an owner ->
+    #       every later waiter starves), and the signature says which way round.
+    # Deliberate leniencies:
+    #   * an owner that was never told (H not subset of T) is not a safety violation (only its consequences are);
+    #   * acquire()/release() returning on a connection that has already dropped under a living client
+    #     (random phase, mode drop) is not judged: the grant was true when it was sent;
+    #   * the answer to release (True/False) is counted (probe release_answer_unexpected), not judged;
+    #   * liveness is judged from the server's point of view: a client that died but whose end of stream
+    #     has not arrived yet still counts as waiting/holding (the server cannot know better), and the
+    #     starvation bound restarts at every new acquire ("once holders release or die" / no new contender);
+    #   * exceptions escaping server callbacks, clients spinning on EOF, timers left over are probes only.
+    # ------------------------------------------------------------------------------------------
     def _after_step(self, kind, label):
         import dawgie.context as ctx
 
@@ -769,17 +813,14 @@ class LockWorld:
                          f'acquire() of {st.tag if st else conn.cid} returned while its connection owns={has}, db_lock={bool(ctx.db_lock)}')
 
     def on_release_returned(self, cl, sock, ack, held):
-        conn = sock.conn
         self.probes['release_returned'] += 1
-        if sock.eof and sock.was_reset:
+        if sock.was_reset:
+            # leniency: the connection dropped under a living client; whatever it read is not judged
             return
         self.xop(f'c{cl.idx}.{cl.round}: release() returned {ack!r}')
-        if not isinstance(ack, bool):
-            return
-        if held and ack is not True and not conn.server_gone:
-            self.violate('release_ack_wrong', 'holder_told_false', f'c{cl.idx}.{cl.round} held the lock, release() returned {ack!r}')
-        if not held and ack is not False:
-            self.violate('release_ack_wrong', 'non_holder_told_true', f'c{cl.idx}.{cl.round} never acquired, release() returned {ack!r}')
+        # the statement says nothing about the answer to release: counted, not judged
+        if (held and ack is not True) or (not held and ack is not False):
+            self.probes['release_answer_unexpected'] += 1
 
     def final_checks(self):
         import dawgie.context as ctx
@@ -913,6 +954,7 @@ class LockWorld:
         start = len(ch.rec)
         how = self.execute(ch, dict(kind='free', index=0, label='fault-free pass'))
         prefix = list(ch.rec[start:])
+        pass_time = self.sim.now
         if self.stopped:
             return
         if how != 'done':
@@ -921,9 +963,16 @@ class LockWorld:
         positions = []
         for cl in self.clients:
             for k, lab in enumerate(cl.points):
+                self.probes['protocol_points'] += 1
                 for mode in cfg['modes']:
+                    # `recv.wait` is reached in the same scheduler step as the point before it (reading a message that
+                    # has arrived is process-local).  reset there = reset at the point before (data just sent is discarded
+                    # with the connection); fin there differs from the point before only if that was a send (the data
+                    # sent is delivered ahead of the end of stream).  Indistinguishable positions are not executed twice.
+                    if lab.startswith('recv.wait') and (mode == 'reset' or k == 0 or not cl.points[k - 1].startswith('send')):
+                        self.probes['positions_equivalent_to_previous_not_repeated'] += 1
+                        continue
                     positions.append((cl.idx, k, mode, lab))
-        self.probes['protocol_points'] += len(positions) // max(1, len(cfg['modes']))
         if len(positions) > cfg['max_enum']:
             # keep a chooser-chosen subset (order preserved); value 0 keeps the first ones
             keep = []
@@ -937,11 +986,11 @@ class LockWorld:
                 return
             fork = ForkChooser(ch, prefix)
             self.execute(fork, dict(kind='enum', index=0, inject=pos, label=f'disconnect c{pos[0]} at point {pos[1]} ({pos[3]}) mode {pos[2]}'))
-            if not self.injected:
+            if not self.injected and not self.stopped:
                 raise core.HarnessError(f'lock world: enumerated position {pos} was not reached (diverged={fork.diverged})')
             self.probes['enumerated_positions'] += 1
             self.probes['enumerated_' + pos[3].replace(':', '_').replace('.', '_')] += 1
-        horizon = max(5.0, min(60.0, self.sim.now))
+        horizon = max(5.0, min(60.0, pass_time))
         for i in range(cfg['random_execs']):
             if self.stopped:
                 return
@@ -959,7 +1008,7 @@ class LockWorld:
         nontrivial = self.contended > 0 and self.reordered > 0 and (nfaults > 0 or not self.cfg['faults'])
         return dict(violations=self.violations, probes={k: v for k, v in self.probes.items() if v}, faults=dict(self.faults),
                     steps=self.steps, vtime=round(self.vtime, 3), digest=self.hash.hexdigest()[:24], nontrivial=bool(nontrivial),
-                    kinds=dict(self.kinds), executions=self.nexec, sample=self.ops[:60], ops=self.ops)
+                    kinds=dict(self.kinds), executions=self.nexec, sample=self.assemble_ops()[:60], ops=self.assemble_ops())
 
 
 def warmup():
